@@ -119,6 +119,14 @@ class OMPTaskTrans(ParallelLoopTrans):
             if isinstance(call, IntrinsicCall):
                 continue
             intrans.validate(call)
+            # Inline in the copy so that the loop can be validated in the
+            # form it will have when apply() creates the directive.
+            intrans.apply(call)
+        if kerns or any(not isinstance(call, IntrinsicCall)
+                        for call in calls):
+            # apply() re-validates the loop after the inlining: refuse here
+            # anything that would only be refused then.
+            super().validate(node_copy, options)
 
     def _directive(self, children, collapse=None):
         '''
